@@ -231,6 +231,35 @@ impl<'r> Grammar<'r> {
                     let ty = self.rng.pick(TYPES).to_string();
                     self.t(&ty);
                 }
+                // optional local declaration section / nested routine of the anonymous routine
+                match self.rng.below(6) {
+                    0 => {
+                        self.k("var");
+                        let i = self.ident();
+                        self.t(&i);
+                        self.t(":");
+                        let ty = self.rng.pick(TYPES).to_string();
+                        self.t(&ty);
+                        self.t(";");
+                    }
+                    1 => {
+                        self.k("const");
+                        let i = self.ident();
+                        self.t(&i);
+                        self.t("=");
+                        self.t("1");
+                        self.t(";");
+                    }
+                    2 => {
+                        self.k("procedure");
+                        self.t("Nested");
+                        self.t(";");
+                        self.k("begin");
+                        self.k("end");
+                        self.t(";");
+                    }
+                    _ => {}
+                }
                 self.k("begin");
                 let n = self.rng.below(3);
                 for _ in 0..n {
@@ -420,7 +449,8 @@ impl<'r> Grammar<'r> {
                     self.t(&i);
                 }
             }
-            17 => {
+            17 if depth > 0 => {
+                // inline variable declarations are statements only inside a begin..end block
                 self.km("var", m);
                 let i = self.ident();
                 self.t(&i);
@@ -661,10 +691,44 @@ impl<'r> Grammar<'r> {
         }
         if self.allow_asm && self.rng.chance(1, 12) {
             self.km("asm", Mark::Start(depth));
-            self.t("mov");
-            self.t("eax");
-            self.t(",");
-            self.t("1");
+            let n = self.rng.range(1, 4);
+            for _ in 0..n {
+                match self.rng.below(5) {
+                    0 => {
+                        self.t("mov");
+                        self.t("eax");
+                        self.t(",");
+                        self.t("1");
+                    }
+                    1 => {
+                        self.t("XOR");
+                        self.t("EAX");
+                        self.t(",");
+                        self.t("EAX");
+                        self.t(";");
+                    }
+                    2 => {
+                        self.t("@@loop:");
+                        self.t("dec");
+                        self.t("ecx");
+                    }
+                    3 => {
+                        self.t("push");
+                        self.t("ebx");
+                        self.t(";");
+                        self.t("pop");
+                        self.t("ebx");
+                    }
+                    _ => {
+                        self.t("db");
+                        self.t("0FFh");
+                        self.t(",");
+                        self.t("\"a\\\"b\"");
+                    }
+                }
+                // instructions are separated by line breaks (rendered verbatim by the layouts too)
+                self.t("\n");
+            }
             self.km("end", Mark::None);
         } else {
             self.km("begin", Mark::Start(depth));
@@ -749,7 +813,7 @@ pub fn gen_program(rng: &mut Rng, budget: i32) -> Program {
 pub fn render_plain(p: &Program) -> String {
     let mut s = String::new();
     for (i, t) in p.toks.iter().enumerate() {
-        if i > 0 {
+        if i > 0 && t.text != "\n" {
             s.push(' ');
         }
         s.push_str(&t.text);
@@ -798,7 +862,7 @@ fn needs_sep(a: &str, b: &str) -> bool {
 }
 
 const COMMENTS_INLINE: &[&str] = &["{ c }", "(* c *)", "{}", "(**)", "{ x } { y }"];
-const COMMENTS_LINE: &[&str] = &["// c", "//c", "/// doc", "//", "//   spaced   ", "//-----------------", "// trailing  \t", "//!bang"];
+const COMMENTS_LINE: &[&str] = &["// c", "//c", "/// doc", "//", "//   spaced   ", "//-----------------", "// trailing  \t", "//!bang", "//  ", "// ", "///\t", "///  x ", "//\u{c}"];
 const COMMENTS_MULTI: &[&str] = &["{ a\n  b }", "(* a\n\n b *)"];
 const DIRECTIVES: &[&str] = &["{$R+}", "{$define foo}", "{$region 'x'}", "{$i inc.inc}", "(*$hints off*)", "{$WARN SYMBOL_PLATFORM OFF}"];
 
@@ -1252,8 +1316,32 @@ pub fn mls_family_case(rng: &mut Rng) -> String {
     lit.push_str(q);
     lit.push_str(nl);
     for i in 0..rng.range(1, 3) {
-        match rng.below(6) {
+        match rng.below(9) {
             0 => lit.push_str(nl),
+            6 => {
+                // blank-only line that is NOT a prefix of the indentation (other blank characters, or longer)
+                lit.push_str(*rng.pick(&["\t", " \t ", "\u{3000}", "\u{1}\u{2}", "                                                                  "]));
+                lit.push_str(nl);
+            }
+            7 => {
+                // characters that Unicode calls spaces but Delphi does not treat as blank
+                let h = ind.len() / 2;
+                let mut hh = h;
+                while !ind.is_char_boundary(hh) {
+                    hh -= 1;
+                }
+                if rng.chance(1, 2) {
+                    lit.push_str(&ind[..hh]);
+                }
+                lit.push_str(*rng.pick(&["\u{a0}", "\u{2003}", "\u{85}", "\u{2028}", "\u{202f}\u{a0}", "\u{1680}"]));
+                lit.push_str(nl);
+            }
+            8 => {
+                // wrong indentation followed by text
+                lit.push_str(*rng.pick(&["\t", " ", ""]));
+                lit.push_str("misindented");
+                lit.push_str(nl);
+            }
             1 => {
                 lit.push_str(&ind);
                 lit.push_str("  deeper  ");
@@ -1342,4 +1430,57 @@ pub fn soup_enum(mut i: usize) -> String {
         i /= n;
     }
     parts.join(" ")
+}
+
+
+/// C06 family: two renderings of the same program that differ only in horizontal whitespace, indentation and in
+/// whether a gap between two non-comment tokens is spaces or a single line break.  Blank-line groups and every
+/// gap that touches a comment/directive are decided by `shared` (identical in both renderings).
+pub fn render_relayout(p: &Program, shared_seed: u64, private: &mut Rng, with_comments: bool) -> String {
+    let mut shared = Rng(shared_seed);
+    let mut s = String::new();
+    let mut prev: Option<String> = None;
+    for t in p.toks.iter() {
+        if let Some(pv) = &prev {
+            // shared decisions first (always consume the same amount of shared randomness)
+            let blank = shared.chance(1, 12);
+            let comment = if with_comments && shared.chance(1, 16) { Some(shared.below(6)) } else { None };
+            let c_text: String = match comment {
+                Some(0) | Some(1) => format!(" {} ", shared.pick_str(COMMENTS_INLINE)),
+                Some(2) | Some(3) => format!(" {}\n  ", shared.pick_str(COMMENTS_LINE)),
+                Some(4) => format!("\n{}\n", shared.pick_str(COMMENTS_MULTI)),
+                Some(_) => format!(" {} ", shared.pick_str(DIRECTIVES)),
+                None => String::new(),
+            };
+            if comment.is_some() {
+                s.push_str(&c_text);
+            } else if blank {
+                let k = private.range(2, 3);
+                s.push_str(&"\n".repeat(k));
+                s.push_str(&" ".repeat(private.below(6)));
+            } else {
+                let c = private.below(100);
+                let mut gap = String::new();
+                if c < 15 && !needs_sep(pv, &t.text) {
+                } else if c < 55 {
+                    gap.push(' ');
+                } else if c < 65 {
+                    gap.push_str(&" ".repeat(private.range(2, 7)));
+                } else if c < 70 {
+                    gap.push('\t');
+                } else {
+                    gap.push('\n');
+                    gap.push_str(&" ".repeat(private.below(9)));
+                }
+                if gap.is_empty() && needs_sep(pv, &t.text) {
+                    gap.push(' ');
+                }
+                s.push_str(&gap);
+            }
+        }
+        s.push_str(&t.text);
+        prev = Some(t.text.clone());
+    }
+    s.push_str(if private.chance(1, 2) { "\n" } else { "" });
+    s
 }
